@@ -326,3 +326,38 @@ fn c17_open_files_bounded() {
     }
     finish(suite, cases);
 }
+
+/// C12 (bounded: namecoin and dogecoin, one 7-block chain each whose versions alternate below / at / above the activation
+/// version): whether a block carries an AuxPoW section is decided by that block's own version -- blocks before and after an
+/// AuxPoW block are decoded by their own version, whatever was read earlier
+#[test]
+fn c12_mixed_version_chain() {
+    let suite = "c12_mixed_version_chain";
+    let mut rng = Rng::new(1212);
+    let mut cases = 0;
+    for (coin, thr) in [("namecoin", 0x10101u32), ("dogecoin", 0x620102u32)] {
+        let versions = [1u32, thr, thr - 0x100, thr, 2, thr + 1, 1];
+        let mut chain = make_chain(versions.len() as u64, &mut |h| if h % 2 == 0 { vec![] } else {
+            vec![TxSpec::new(vec![TxIn::new([h as u8; 32], 0, vec![0x51])], vec![TxOut::new(h, p2pkh_script(&[h as u8; 20]))])] });
+        for (b, v) in chain.iter_mut().zip(versions.iter()) {
+            b.version = *v;
+            if *v >= thr { b.aux = Some(aux_section(&mut rng, *v % 2 == 0, (*v % 5) as usize, 2)); }
+        }
+        relink(&mut chain);
+        let d = simple_dir(&chain); d.write();
+        cases += 1;
+        let inp = format!("{} versions {:x?}", coin, versions);
+        cmp_delivery(suite, "C12:auxpow_decision_depends_on_the_blocks_own_version_only", &inp, fetch_all(&d, coin, versions.len() as u64, false), &hashes(&chain));
+        match fetch_blocks(d.path(), coin, 0, versions.len() as u64 - 1, false) {
+            Err(m) => fail(suite, "C12:auxpow_decision_depends_on_the_blocks_own_version_only", &inp, &m, "all blocks parsed"),
+            Ok(bs) => for (h, (got, want)) in bs.iter().zip(chain.iter()).enumerate() {
+                cases += 1;
+                let g: Vec<[u8; 32]> = got.txs.iter().map(|t| t.hash.to_byte_array()).collect();
+                let w: Vec<[u8; 32]> = want.txs.iter().map(|t| t.txid()).collect();
+                check(g == w && got.aux_pow_extension.is_some() == (versions[h] >= thr), suite, "C12:transaction_list_unaffected_by_the_section",
+                      &format!("{} height {} version {:#x}", inp, h, versions[h]), &format!("{} txs, aux={}", g.len(), got.aux_pow_extension.is_some()), &format!("{} txs, aux={}", w.len(), versions[h] >= thr));
+            }
+        }
+    }
+    finish(suite, cases);
+}
